@@ -20,6 +20,26 @@ evaluate such accesses at compile time, so the environment probes are
 installed before compilation and every environment variant exists with the
 optimizer on and off.  The same name classification, access-form grammar,
 outcome oracle and value oracle apply.
+The receiver may also be an ENGINE OBJECT, i.e. something the engine itself puts
+in front of the template (tables in vt/gen/c17_routes.py): the module of an
+imported template ({% import X as m %}, X a loader name or a Template object
+from the context, with / without context, at top level / in a block / macro /
+loop / child template / included template), macro objects (local, imported,
+`caller`), `self`, block references (`self.blk`, `super`), `loop` and its bound
+methods, namespace / cycler / joiner objects, `varargs` / `kwargs`, the default
+global function and classes, an undefined value, a Template object.  Their
+private names are discovered generically (an instance grabbed in an
+unsandboxed render: underscore names of dir() / instance dict / type, plus the
+fixed escape-primitive dunders and the documented internal names); only
+forbidden names are generated for them.  `{% from X import NAME [as ALIAS] %}`
+(alone / first / last in the list, with / without context, trailing comma,
+private alias, no alias) is an access form of its own: the statement names an
+attribute of the imported module, the alias is what gets consumed; the
+documented outcome there is a TemplateSyntaxError when compiling ("names
+starting with an underline can not be imported").  Data-object receivers are
+also accessed from other POSITIONS: inside an included template, inside a
+macro of an imported template (argument / shared context), inside a block of a
+child template, inside a call block.
 
 Oracle per render
  (1) no Tracer operation, no Tracer token in the output, the recording callable
@@ -29,8 +49,10 @@ Oracle per render
      caller is template code;
  (3) every fetch of a template-chosen name on a probe by engine/stdlib code is
      followed by an is_safe_attribute consult for the same (object, name);
- (4) structural: the generated Python source has no ast.Attribute / constant
-     ast.Subscript using a template-chosen name.
+ (4) structural: the generated Python source (main and auxiliary templates) has
+     no ast.Attribute / constant ast.Subscript / builtin getattr(x, 'name') call
+     using a template-chosen name, other than those the engine generates for
+     the same template with a neutral name.
  (5) value oracle, independent of every name classification: no value returned
      by env.getattr / env.getitem (instance-level probes; generated code, the
      attribute filters and format-field lookups all use them), approved by
@@ -51,25 +73,32 @@ from vt.mon import c17_probe as P
 
 PID = "C17"
 LEVEL = "exploration"
-TECHNIQUE = "probe objects with caller-frame classification + tracer values + wrapped is_safe_attribute + AST check of generated code, over an adversarial access-path grammar"
+TECHNIQUE = "probe objects with caller-frame classification + tracer values + wrapped is_safe_attribute + AST check of generated code, over an adversarial access-path grammar (data objects, literals, engine objects, import statements)"
 RULE = ("case = (base object expression [probe root/child/list element/method result/loop or "
         "macro or set alias | real function, method, generator, coroutine, async generator, "
         "class, frame, code, traceback, namedtuple, module, str, int | literal written in the "
         "template: str, empty str, int, float, list, empty list, dict, empty dict, tuple, true, "
         "false, none - bare / parenthesised / in a constant filter or inline-if / set or loop "
-        "alias], name [forbidden: underscore / "
+        "alias | engine object: imported template module (loader name / Template object, "
+        "with / without context, in block / macro / loop / child / included template), macro "
+        "(local / imported / caller), self, block reference (self.blk / super), loop, loop bound "
+        "method, namespace, cycler, joiner, varargs, kwargs, default global function / class, "
+        "undefined value, Template object - private names discovered from a grabbed instance | "
+        "probe / real object accessed inside an included template, an imported macro, a child "
+        "block, a call block], name [forbidden: underscore / "
         "pinned documented internal names / is_internal_attribute; or any other fetchable "
         "name of the real object, judged by the value oracle only], access "
         "form [dot, subscript (literal/concatenated/variable), |attr, map/select*/reject*/sort/"
         "unique/groupby/sum/min/max/join attribute arguments incl. dotted+integer paths, "
         "str.format / format_map / Markup.format with positional, keyword, index, conversion, "
         "spec and nested-spec fields, stored bound format methods via set/attr/subscript/map/"
-        "macro], consumption form, environment variant [sync/async x autoescape x undefined "
+        "macro, {% from X import NAME [as ALIAS] %} alone / first / last / twice / trailing comma / "
+        "private alias / no alias, with / without context], consumption form, environment variant [sync/async x autoescape x undefined "
         "type x immutable x optimizer on/off]); core = every (access form x object kind x name category) once, "
         "rest seeded sampling; distinct by that tuple; non-trivial when the harness itself can "
         "fetch the attribute from the object (so a bypass would have something to hand over)")
 LEVEL_TEXT = ("held on every generated (template, data) pair: tracer silence, undefined/SecurityError "
-              "outcome, no template-frame fetch, consult-after-fetch, clean generated code, and no "
+              "(or, for from-imports of private names, TemplateSyntaxError) outcome, no template-frame fetch, consult-after-fetch, clean generated code, and no "
               "frame/code/traceback/globals-dict/module-dict/class value on any observation channel "
               "whatever the attribute name; bounded to the grammar above")
 ASSUMPTIONS = [
@@ -80,6 +109,10 @@ ASSUMPTIONS = [
     "value oracle: frame, code and traceback objects, dicts containing '__builtins__' (function globals, builtins), module __dict__s and type objects are interpreter internals that no attribute of the generated data objects may hand to a template; the data objects were chosen so that none of their public attributes legitimately has such a value (checked by the harness per case: a public name whose own value is of such a kind is a reported violation only if the sandbox hands it over)",
     "item access with underscore keys on mappings is not attribute access and is not generated",
     "literal receivers: the forbidden names of a literal are those of the equal Python value (same classification as for context objects); the dict literals used have no underscore keys",
+    "engine-object receivers: the private names are those of an instance of the same construct grabbed by a context callable in an unsandboxed render of the same jinja tree (underscore names in dir() / instance dict / type that the harness can fetch, the escape-primitive dunders, the documented internal names); only forbidden names are generated for them (their public attributes, e.g. Template.environment, are outside this property); names containing the grammar's placeholder letter 'B' are skipped",
+    "{% from X import NAME as ALIAS %}: NAME is an attribute name of the imported template's module chosen by the template; docs/templates.rst (Import Visibility: 'macros and variables starting with one or more underscores are private and cannot be imported') makes TemplateSyntaxError the expected outcome; a compiled statement must still deliver an undefined value",
+    "subscripting an undefined RECEIVER raises UndefinedError, accepted as a refusal for that receiver kind only; `dict` is not used as a class receiver because dict['x'] is a types.GenericAlias (item access on a generic class), not an attribute",
+    "structural rule: attribute names the engine's own generated code uses (e.g. .__name__ of an imported template for an error message) are discounted by compiling the same template with a neutral attribute name",
 ]
 NSHARDS = {"quick": 16, "thorough": 16}
 BUDGET_S = {"quick": 20, "thorough": 400}
@@ -93,7 +126,10 @@ FLOORS = {
                            "dangerous_value_cases": 220, "pinned_internal_cases": 40,
                            "public_name_cases": 120, "value_controls_ok": 32,
                            "literal_receiver_cases": 450, "literal_forbidden_direct_cases": 180,
-                           "unoptimized_renders": 500}},
+                           "unoptimized_renders": 500,
+                           "engine_route_cases": 170, "engine_route_rendered": 130,
+                           "from_import_cases": 30, "from_import_cases:alias": 22,
+                           "aux_template_cases": 250, "route_controls_ok": 32}},
     "thorough": {"evaluations": 60000, "distinct": 50000,
                  "counters": {"probe_fetches": 250000, "consults": 80000, "rule3_checks": 50000,
                               "nonprotocol_fetches": 50000, "sink_undefined": 5000,
@@ -103,7 +139,10 @@ FLOORS = {
                               "dangerous_value_cases": 5000, "pinned_internal_cases": 1000,
                               "public_name_cases": 4000, "value_controls_ok": 32,
                               "literal_receiver_cases": 4000, "literal_forbidden_direct_cases": 1500,
-                              "unoptimized_renders": 6000}},
+                              "unoptimized_renders": 6000,
+                              "engine_route_cases": 4000, "engine_route_rendered": 3000,
+                              "from_import_cases": 800, "from_import_cases:alias": 600,
+                              "aux_template_cases": 6000, "route_controls_ok": 32}},
 }
 
 # ------------------------------------------------------------------- data
@@ -448,6 +487,8 @@ ACCESS = {
     **R.FROM_IMPORT_ACCESS,
 }
 FROM_ACCESS = set(R.FROM_IMPORT_ACCESS)
+FROM_KINDS = [k for k in R.ENGINE_KINDS if any(e[3] for e in R.ENGINE_BASES[k].values())]
+DIRECT_ACCESS = {"dot", "subscript", "subscript_dq", "attr_filter"}
 NEED_PARENT = {"map_dotted", "selectattr_dotted", "format_dotted"}
 FORMAT_ACCESS = {k for k in ACCESS if "format" in k}
 
@@ -567,6 +608,12 @@ def _direct_accesses(env, sources, names):
             elif isinstance(node, ast.Subscript) and isinstance(node.slice, ast.Constant) \
                     and node.slice.value in names:
                 bad.append(f"subscript [{node.slice.value!r}]")
+            elif isinstance(node, ast.Call) and isinstance(node.func, ast.Name) \
+                    and node.func.id == "getattr" and len(node.args) >= 2 \
+                    and isinstance(node.args[1], ast.Constant) and node.args[1].value in names:
+                # the builtin with a constant name: the same thing spelled as a call
+                # (this is how {% from X import name %} reads the imported name)
+                bad.append(f"builtin getattr(..., {node.args[1].value!r})")
     return bad
 
 
@@ -1044,6 +1091,8 @@ def core_cases():
                 bases = [b for b in bases if R.ENGINE_BASES[kind][b][3]]
                 if not bases:
                     continue
+            elif access in DIRECT_ACCESS:
+                pass        # the plain syntactic forms: every name as well
             else:
                 i += 1
                 names = [names[i % len(names)]]
@@ -1063,16 +1112,18 @@ def random_case(rng):
             obj = "probe"
             base = rng.choice(list(PROBE_BASES))
             name = rng.choice(P.PRIVATE_NAMES)
-        elif x < 0.54:
+        elif x < 0.45:
+            # {% from X import NAME ... %}: any importable-from base, any private name
+            obj = rng.choice(FROM_KINDS)
+            base = rng.choice([b for b, e in R.ENGINE_BASES[obj].items() if e[3]])
+            return {"obj": obj, "base": base, "name": rng.choice(real_forbidden_names(obj)),
+                    "access": rng.choice(sorted(FROM_ACCESS)),
+                    "consume": rng.choice(CHECKED_CONSUME if rng.random() < 0.5 else list(CONSUME)),
+                    **env_variant(rng.randrange(420))}
+        elif x < 0.55:
             obj = rng.choice(R.ENGINE_KINDS)
             base = rng.choice(list(R.ENGINE_BASES[obj]))
             name = rng.choice(real_forbidden_names(obj))
-            if rng.random() < 0.25 and R.ENGINE_BASES[obj][base][3]:
-                c = {"obj": obj, "base": base, "name": name,
-                     "access": rng.choice(sorted(FROM_ACCESS)),
-                     "consume": rng.choice(CHECKED_CONSUME if rng.random() < 0.5 else list(CONSUME)),
-                     **env_variant(rng.randrange(420))}
-                return c
         elif x < 0.68:
             obj = rng.choice(LITERAL_KINDS)
             base = rng.choice(list(LITERAL_BASES))
@@ -1116,7 +1167,10 @@ def run(ctx):
     for i, case in enumerate(core):
         if not ctx.mine(i):
             continue
-        if quick and (i // ctx.nshards) % stride != ctx.seed % stride:
+        # quick: every seed takes a fifth of the core, INTERLEAVED (neighbouring
+        # cases - the names of one access form x object kind - go to different
+        # seeds, so each seed sees some name of every combination)
+        if quick and (i // ctx.nshards + i) % stride != ctx.seed % stride:
             continue
         run_case(ctx, case)
         n += 1
